@@ -355,8 +355,19 @@ func ruleL7(p *Prog) *RuleResult {
 	if !muls[8] {
 		missing = append(missing, "8*containers")
 	}
-	if !callsArray {
-		missing = append(missing, "2 bytes per value (arrayContainerSizeInBytes)")
+	// 2 bytes per value: through the size helper of the array kind, or as 2*cardinality in 64 bits
+	twoPerValue := callsArray
+	for _, b := range f.Blocks {
+		for _, ins := range b.Instrs {
+			if x, ok := ins.(*ssa.BinOp); ok && x.Op == token.MUL && len(f.Params) > 0 {
+				if (isConstInt(x.X, 2) && x.Y == ssa.Value(f.Params[0])) || (isConstInt(x.Y, 2) && x.X == ssa.Value(f.Params[0])) {
+					twoPerValue = true
+				}
+			}
+		}
+	}
+	if !twoPerValue {
+		missing = append(missing, "2 bytes per value (arrayContainerSizeInBytes or 2*cardinality)")
 	}
 	// arrayContainerSizeInBytes(card) == 2*card
 	if g := p.Func("roaring.arrayContainerSizeInBytes"); g != nil {
